@@ -33,7 +33,7 @@ CLAUSES = ["member:values", "member:axes", "mean:values", "config-axis", "displa
            "chunk-independence", "order-independence", "mode-independence", "pipeline-displacements",
            "atoms-ensemble-order"]
 QUICK = dict(n=28, time=38)
-THOROUGH = dict(n=720, time=400, shards=16)
+THOROUGH = dict(n=2470, time=480, shards=16)
 
 POS_ATOL = 2e-6     # sigmas are stored in float32 by abTEM: |sigma*r| rounding <= 0.3*6*6e-8 ~ 1e-7
 RTOL = 2e-5
